@@ -985,10 +985,16 @@ theorem drel_finish_plain {custom : Bool} {progs : List (List Op)} {s s' : St} {
 
 /-- a log call of worker `g` that the monitor says must be delivered is one the logger accepts -/
 theorem accepted_of_must {level : Nat} {shutdown : Bool} {c : LogCall} (h : mustDeliver level shutdown c = true) :
-    (decide (level ≤ c.lvl) && (c.derived || !shutdown)) = true ∧ c.fail = false := by
-  simp only [mustDeliver, Bool.and_eq_true, decide_eq_true_eq, Bool.not_eq_true'] at h
-  obtain ⟨⟨⟨h1, h2⟩, h3⟩, _⟩ := h
-  simp [h1, h2, h3]
+    (bif c.stale then decide (1 ≤ c.lvl) else decide (level ≤ c.lvl) && (c.derived || !shutdown)) = true ∧
+      c.fail = false := by
+  simp only [mustDeliver, Bool.and_eq_true, Bool.not_eq_true'] at h
+  obtain ⟨h1, h3⟩ := h
+  refine ⟨?_, h3⟩
+  cases hst : c.stale with
+  | true => simpa [hst] using h1
+  | false =>
+    simp only [hst, cond_false, Bool.and_eq_true, decide_eq_true_eq, Bool.not_eq_true'] at h1
+    simp [h1.1, h1.2]
 
 theorem mem_filter_not {l : List (Nat × Nat × Bool)} {g i : Nat} {x : Nat × Nat × Bool}
     (hx : x ∈ l.filter (fun x => !(x.1 == g && x.2.1 == i))) : x ∈ l ∧ ¬ (x.1 = g ∧ x.2.1 = i) := by
@@ -1189,18 +1195,19 @@ theorem drel_advance {custom : Bool} {progs : List (List Op)} {s : St} {m : DMon
               | false => rfl
               | true =>
                 have hacc := (accepted_of_must hmd).1
-                have hstf : c.stale = false := by
-                  simp only [mustDeliver, Bool.and_eq_true, Bool.not_eq_true'] at hmd
-                  exact hmd.2
-                simp only [hstf, cond_false] at hrej
-                simp only [Bool.and_eq_true, decide_eq_true_eq, Bool.or_eq_true, Bool.not_eq_true'] at hacc
-                simp only [emit_level, emit_shutdown, Bool.not_eq_true', Bool.and_eq_false_iff,
-                  Bool.or_eq_false_iff, Bool.not_eq_false'] at hrej
-                rcases hrej with hr | ⟨hr1, hr2⟩
-                · exact absurd hacc.1 (of_decide_eq_false hr)
-                · rcases hacc.2 with hd | hd
-                  · rw [hr1] at hd; cases hd
-                  · rw [hr2] at hd; cases hd
+                simp only [emit_level, emit_shutdown] at hrej
+                cases hst : c.stale with
+                | true =>
+                  simp only [hst, cond_true, Bool.not_eq_true', decide_eq_false_iff_not, decide_eq_true_eq] at hrej hacc
+                  exact absurd hacc hrej
+                | false =>
+                  simp only [hst, cond_false, Bool.not_eq_true', Bool.and_eq_false_iff, Bool.and_eq_true, Bool.or_eq_true,
+                    Bool.or_eq_false_iff, Bool.not_eq_false', decide_eq_true_eq] at hrej hacc
+                  rcases hrej with hr | ⟨hr1, hr2⟩
+                  · exact absurd hacc.1 (of_decide_eq_false hr)
+                  · rcases hacc.2 with hd | hd
+                    · rw [hr1] at hd; cases hd
+                    · rw [hr2] at hd; cases hd
             refine ⟨[.begin g w.idx, .done g w.idx], by simp [finishOp_eq], ?_⟩
             simp only [List.foldl_cons, List.foldl_nil]
             rw [hm1]
